@@ -8,7 +8,8 @@
      {"op":"tick","t":µs}     the scheduler looks at the clock at absolute time t
      {"op":"adv","t":µs}      let time pass up to t, the timer firing exactly when due
      {"op":"seq", <reset fields>, "evs":[[pr|null, v|null], …]}
-          fresh object, then the presentValue commands in order; one digest per command
+          fresh object, then the presentValue commands in order; the outcome of every
+          command and the digest after the last one (every prefix is a request of its own)
    reply: {"r":"ok"|"err","k":…, "pv":n, "slots":[n|null ×16], "dl":µs|null, "now":µs, "br":…}
 -/
 import BacVerif.Drv.Common
@@ -63,6 +64,10 @@ def mkCfg (j : Json) : R (Cfg Nat × Nat) := do
   | some c =>
     let cfg : Cfg Nat :=
       { default := ← fldNat j "def", minOnOff := c.minOnOff,
+        -- protocol convention: code 1000 = a value of the wrong type, 1001 = an
+        -- enumeration number outside the table (enumerated datatypes only)
+        check := fun n => if n = 1000 then some .invalidDatatype
+                          else if n = 1001 ∧ c.enumerated = true then some .valueOutOfRange else none,
         inactive := fldNatD j "inactive" 0, active := fldNatD j "active" 1,
         minOn := fldNatD j "on" 0, minOff := fldNatD j "off" 0 }
     pure (cfg, ← fldNat j "pv")
@@ -109,7 +114,7 @@ def handle (d : D) (j : Json) : R (D × Json) := do
       let (cfg, pv) ← mkCfg j
       let evs ← fldArr j "evs"
       let mut s := init pv
-      let mut out : Array Json := #[]
+      let mut errs : Array Json := #[]
       let mut brs : Array Json := #[]
       for e in evs do
         let a ← e.getArr?
@@ -121,14 +126,13 @@ def handle (d : D) (j : Json) : R (D × Json) := do
           | Json.null => pure none
           | x => do pure (some (← x.getNat?))
         let (s', err) := step cfg s (command v pr)
-        out := out.push (Json.arr #[
-          (match err with | none => Json.null | some k => Json.str k.name),
-          Json.num s'.present, Json.arr ((slotList s').map jOptNat).toArray, jOptNat s'.deadline])
+        errs := errs.push (match err with | none => Json.null | some k => Json.str k.name)
         brs := brs.push (Json.str (branch s s' err))
         s := s'
-      pure ({ cfg := cfg, st := s }, Json.mkObj [("r", "ok"), ("steps", Json.arr out), ("br", Json.arr brs)])
+      pure ({ cfg := cfg, st := s },
+            Json.mkObj ([("r", Json.str "ok"), ("errs", Json.arr errs)] ++ digest s ++ [("br", Json.arr brs)]))
   | op => throw s!"unknown op {op}"
 
 def main : IO Unit :=
-  loopS ({ cfg := { default := 0, minOnOff := false, inactive := 0, active := 1, minOn := 0, minOff := 0 },
+  loopS ({ cfg := { default := 0, check := fun _ => none, minOnOff := false, inactive := 0, active := 1, minOn := 0, minOff := 0 },
            st := init 0 } : D) handle
